@@ -196,7 +196,14 @@ fn split_markup(rng: &mut Rng, words: &[String]) -> Vec<Node> {
             if rng.chance(1, 3) {
                 flush(&mut nodes, &mut buf, &mut open, rng);
             }
-            buf.push(Node::Space);
+            if rng.chance(1, 8) {
+                // the space between two words sits alone inside an inline element
+                flush(&mut nodes, &mut buf, &mut open, rng);
+                let t = *rng.pick(&["em", "strong", "code", "span", "i"]);
+                nodes.push(El::with(t, vec![Node::Space]).node());
+            } else {
+                buf.push(Node::Space);
+            }
             if rng.chance(1, 3) {
                 flush(&mut nodes, &mut buf, &mut open, rng);
                 if rng.chance(1, 2) {
@@ -206,6 +213,31 @@ fn split_markup(rng: &mut Rng, words: &[String]) -> Vec<Node> {
         }
         // cut inside the word?
         let chars: Vec<char> = w.chars().collect();
+        // a zero-width character alone in a text node of its own (in an element, or
+        // between comments): it still belongs to the character before it
+        if let Some(k) = chars.iter().position(|c| cw(*c) == 0) {
+            if k >= 1 && rng.chance(1, 3) {
+                buf.push(Node::Word(chars[..k].iter().collect()));
+                flush(&mut nodes, &mut buf, &mut open, rng);
+                let mut e = k + 1;
+                while e < chars.len() && cw(chars[e]) == 0 && rng.chance(1, 2) {
+                    e += 1;
+                }
+                let mark = Node::Word(chars[k..e].iter().collect());
+                if rng.chance(1, 2) {
+                    let t = *rng.pick(&["em", "strong", "code", "span", "i"]);
+                    nodes.push(El::with(t, vec![mark]).node());
+                } else {
+                    nodes.push(Node::Comment("x".into()));
+                    nodes.push(mark);
+                    nodes.push(Node::Comment("y".into()));
+                }
+                if e < chars.len() {
+                    buf.push(Node::Word(chars[e..].iter().collect()));
+                }
+                continue;
+            }
+        }
         if chars.len() >= 2 && rng.chance(1, 3) {
             // cut before a base character (never before a combining mark)
             let mut cut = rng.range(1, chars.len() - 1);
